@@ -346,6 +346,44 @@ func c09R4(c *Ctx) {
 		}
 	}
 	idPath := path(idParam)
+	// the post's own id field, where it is only ever set from the id parameter, is the parameter under another name
+	idPathSet := map[string]bool{idPath: true}
+	{
+		onlyParam, anyStore := true, false
+		var loads []ssa.Value
+		scan := func(f *ssa.Function) {
+			eachInstr(f, func(_ *ssa.BasicBlock, _ int, in ssa.Instruction) {
+				fa, ok := in.(*ssa.FieldAddr)
+				if !ok || fieldOf(fa).Name() != "id" || !isNamed(fa.X.Type(), "servitor/pub", "Post") {
+					return
+				}
+				for _, r := range refs(fa) {
+					switch x := r.(type) {
+					case *ssa.Store:
+						if x.Addr == ssa.Value(fa) {
+							anyStore = true
+							if unwrapLoad(x.Val) != ssa.Value(idParam) {
+								onlyParam = false
+							}
+						}
+					case *ssa.UnOp:
+						if x.Op == token.MUL && f == fn {
+							loads = append(loads, x)
+						}
+					}
+				}
+			})
+		}
+		scan(fn)
+		for _, an := range fn.AnonFuncs {
+			scan(an)
+		}
+		if anyStore && onlyParam {
+			for _, l := range loads {
+				idPathSet[path(l)] = true
+			}
+		}
+	}
 	// success returns
 	var wait *ssa.Call
 	eachInstr(fn, func(_ *ssa.BasicBlock, _ int, in ssa.Instruction) {
@@ -449,20 +487,23 @@ func c09R4(c *Ctx) {
 				if px == idAcc && cmp.Op == token.EQL {
 					accNil = true
 				}
-				if px == idPath && cmp.Op == token.EQL {
+				if idPathSet[px] && cmp.Op == token.EQL {
 					idNil = true
 				}
 				if px == idAcc && cmp.Op == token.NEQ {
 					accNN = true
 				}
-				if px == idPath && cmp.Op == token.NEQ {
+				if idPathSet[px] && cmp.Op == token.NEQ {
 					idNN = true
 				}
 			}
 			if cmp.Op == token.EQL {
-				l, r := idAcc+".&Host.*", idPath+".&Host.*"
-				if (px == l && py == r) || (px == r && py == l) {
-					hostEq = true
+				l := idAcc + ".&Host.*"
+				for ip := range idPathSet {
+					r := ip + ".&Host.*"
+					if (px == l && py == r) || (px == r && py == l) {
+						hostEq = true
+					}
 				}
 			}
 		}
